@@ -187,10 +187,19 @@ func (q *req40) orig() *call40 {
 // opRes is the result of the transaction op of a [PUTFH, op] compound (nil if
 // the compound stopped before it).
 func opRes(res *nfsv4.Compound4res) nfsv4.NfsResop4 {
-	if len(res.Resarray) == 2 {
+	if len(res.Resarray) >= 2 {
 		return res.Resarray[1]
 	}
 	return nil
+}
+
+// opSt is the status of the transaction op: the compound's status, unless
+// operations after it were evaluated (then it succeeded).
+func opSt(res *nfsv4.Compound4res) uint32 {
+	if len(res.Resarray) > 2 {
+		return 0
+	}
+	return uint32(res.Status)
 }
 
 func opBytes(res *nfsv4.Compound4res) []byte {
@@ -284,7 +293,7 @@ func (r *run40) build(f []string) (*req40, bool) {
 		q.kind, q.client, q.seq, q.file = kOpen, arg(2)%2, uint32(arg(4)), arg(5)%numFiles
 		q.owner, q.ownerKey = r.ownerIndex(q.client, arg(3)%numOwners)
 		q.args = []nfsv4.NfsArgop4{nfsx.PutFH(r.w.DirHandles[q.file]),
-			nfsx.OpenNull(r.clients[q.client], fmt.Sprintf("oo%d", arg(3)%numOwners), q.seq, uint32(1+arg(6)%3), nfsx.OpenHow(arg(7)%3), "f")}
+			nfsx.OpenNull(r.clients[q.client], fmt.Sprintf("oo%d", arg(3)%numOwners), q.seq, uint32(1+arg(6)%3), nfsx.OpenHow(arg(7)%3), "f"), nfsx.GetFH()}
 		if q.parkKind != "" {
 			q.parkKind = "openchild"
 		}
@@ -295,7 +304,7 @@ func (r *run40) build(f []string) (*req40, bool) {
 		q.kind, q.client, q.seq, q.file = kOpen, arg(2)%2, uint32(arg(4)), arg(5)%numFiles
 		q.owner, q.ownerKey = r.ownerIndex(q.client, arg(3)%numOwners)
 		q.args = []nfsv4.NfsArgop4{nfsx.PutFH(r.w.FileHandles[q.file]),
-			nfsx.OpenPrevious(r.clients[q.client], fmt.Sprintf("oo%d", arg(3)%numOwners), q.seq, uint32(1+arg(6)%3))}
+			nfsx.OpenPrevious(r.clients[q.client], fmt.Sprintf("oo%d", arg(3)%numOwners), q.seq, uint32(1+arg(6)%3)), nfsx.GetFH()}
 	case "confirm", "down", "close", "lock":
 		r.out.refs[arg(2)] = true
 		sid, x := r.sidOf(arg(2))
@@ -490,7 +499,7 @@ func (r *run40) collect() {
 }
 
 func respLine(kind int, res *nfsv4.Compound4res, r *run40, body int) string {
-	st := uint32(res.Status)
+	st := opSt(res)
 	sid := "- 0"
 	if s, ok := nfsx.OpenStateID(res); ok {
 		sid = fmt.Sprintf("%d %d", r.other(s), s.Seqid)
@@ -503,7 +512,7 @@ func respLine(kind int, res *nfsv4.Compound4res, r *run40, body int) string {
 func (r *run40) onReturn(c *call40) {
 	q := c.req
 	res := c.res
-	st := uint32(res.Status)
+	st := opSt(res)
 	effects := 0
 	for _, e := range r.w.Log()[c.effBefore:] {
 		if e.Tag == c.id {
@@ -541,7 +550,13 @@ func (r *run40) onReturn(c *call40) {
 		if !o.returned {
 			r.failMonitor("retransmission (call %d) of request %d returned before the original (call %d) finished", c.id, q.id, o.id)
 		} else if c.fresh && r.lastCons[q.owner] == q {
-			if !bytes.Equal(c.bytes, o.bytes) {
+			if !bytes.Equal(c.bytes, o.bytes) && bytes.Equal(opBytes(c.res), opBytes(o.res)) && q.kind == kOpen {
+				// the OPEN result is the cached one, but what follows it in the compound differs
+				if r.out.known == "" {
+					r.out.known = fmt.Sprintf("retransmission (call %d) of the compound [PUTFH, OPEN, GETFH] (request %d): OPEN is answered from the cache but GETFH then returns another file handle than in the original reply (the replayed OPEN does not set the current filehandle)", c.id, q.id)
+				}
+				r.out.flags["dup-cached"] = true
+			} else if !bytes.Equal(c.bytes, o.bytes) {
 				r.failMonitor("retransmission (call %d) of request %d got a reply that differs from the original's (status %d vs %d)", c.id, q.id, st, uint32(o.res.Status))
 			} else {
 				r.out.flags["dup-cached"] = true
@@ -553,6 +568,10 @@ func (r *run40) onReturn(c *call40) {
 	}
 	if f := q.falseOf; f != nil && f.kind != q.kind && r.lastCons[q.owner] == f && st != 10026 && st != 10025 {
 		r.failMonitor("request %d (kind %d) reuses the seqid of request %d (kind %d) and was not refused (status %d)", q.id, q.kind, f.id, f.kind, st)
+	}
+	if f := q.falseOf; f != nil && f.kind == q.kind && (q.kind == kConfirm || q.kind == kDown || q.kind == kClose) &&
+		r.lastCons[q.owner] == f && f.consCall != nil && q.argSid != f.argSid && st == 0 && bytes.Equal(opBytes(c.res), opBytes(f.consCall.res)) {
+		r.failMonitor("request %d presents another state ID than request %d but reuses its seqid and was answered with that request's reply", q.id, f.id)
 	}
 	if q.falseOf != nil && (st == 10026) {
 		r.out.flags["false-retry"] = true
@@ -597,7 +616,7 @@ func (r *run40) advance(c *call40, st uint32) {
 
 func (r *run40) checkReply(c *call40, want string) {
 	op := opRes(c.res)
-	st := uint32(c.res.Status)
+	st := opSt(c.res)
 	switch {
 	case strings.HasPrefix(want, "e:"):
 		code := uint32(atoi(want[2:]))
@@ -621,7 +640,7 @@ func (r *run40) checkReply(c *call40, want string) {
 
 func (r *run40) compareReturn(c *call40) {
 	q := c.req
-	st := uint32(c.res.Status)
+	st := opSt(c.res)
 	if r.drv == nil || r.out.mismatch != "" {
 		return
 	}
